@@ -188,6 +188,9 @@ def run(ctx):
             # a fixed corpus of boundary shapes, whatever the seed: every keyboard run of the pool alone and embedded
             pws += gen_passwords.WALKS + ['monkey' + w for w in gen_passwords.WALKS] + [w + 'Summer1' for w in gen_passwords.WALKS]
             pws += gen_passwords.CASED_SYMBOL_CORPUS      # symbols that str.lower() changes, in front of / behind letter runs
+            pws += gen_passwords.CONTEXT_CASE_CORPUS      # context strings in a capitalisation the trainer's list does not contain
+        if i == 2:
+            pws = gen_passwords.FRESH_LENGTHS_CORPUS + pws
         if not tame:
             # put the length-changing / title-case letters around trigger patterns
             for base in ['www.a.com', 'bob@x.com', 'pass1']:
